@@ -63,12 +63,20 @@ MedianBracket(s) ==
         ELSE IF l % 2 = 0 THEN << t[l \div 2], t[l \div 2 + 1] >>
              ELSE << t[l \div 2 + 1], t[l \div 2 + 1] >>
 
-\* function with one more point
-Ext(f, k, v) == [ x \in (DOMAIN f) \cup {k} |-> IF x = k THEN v ELSE f[x] ]
+\* TLC evaluates [x \in S |-> e] lazily (the body is re-evaluated at every
+\* application, and chains of such functions nest).  Strict forces the
+\* function into an explicit table once.
+Strict(f) == f @@ << >>
+
+\* function with one more point (k overrides)
+Ext(f, k, v) == (k :> v) @@ f
+
+\* function without one point
+Without(f, k) == Strict([ x \in (DOMAIN f) \ {k} |-> f[x] ])
 
 \* apply-or-default
 Get(f, k, d) == IF k \in DOMAIN f THEN f[k] ELSE d
 
-EmptyFun == [ x \in {} |-> 0 ]
+EmptyFun == << >>
 
 =============================================================================
